@@ -236,4 +236,32 @@ example : digitsVal [1, 2, 5] = 125 := by decide
 /-- signed zero keeps its sign (UNIQUE_ZERO is not set) -/
 example : fmtShortest conv true [0] 1 = ['-', '0'] := by decide
 
+/-! ## special values read back (value level: every NaN payload prints as "NaN") -/
+
+/-- `ReadFloat/ReadDouble` on the text of NaN / ±inf followed by *anything* (`rest` is arbitrary: the reader accepts NaN
+by the characters the converter consumed — /repo a461449 — and `stripPrefix?` stops after the symbol). -/
+theorem special_roundtrip (rest : List Char) :
+    filePieceReadF conv.infSym conv.nanSym (fmtValue conv .nan ++ rest) = .nan 3 ∧
+    filePieceReadF conv.infSym conv.nanSym (fmtValue conv (.inf false) ++ rest) = .val false 3 ∧
+    filePieceReadF conv.infSym conv.nanSym (fmtValue conv (.inf true) ++ rest) = .val true 4 := by
+  have hn : fmtValue conv .nan = ['N', 'a', 'N'] := by decide
+  have hp : fmtValue conv (.inf false) = ['i', 'n', 'f'] := by decide
+  have hm : fmtValue conv (.inf true) = ['-', 'i', 'n', 'f'] := by decide
+  have hN : isSpaceC 'N' = false := by decide
+  have hi : isSpaceC 'i' = false := by decide
+  have hd : isSpaceC '-' = false := by decide
+  rw [hn, hp, hm, conv_symbols.1, conv_symbols.2.1]
+  have e3 : rest.length + 1 + 1 + 1 - rest.length = 3 := by omega
+  have e4 : rest.length + 1 + 1 + 1 + 1 - rest.length = 4 := by omega
+  refine ⟨?_, ?_, ?_⟩
+  · simp [filePieceReadF, parseNumberF, readDecimal, startsWith, stripPrefix?, isWhitespaceDC, hN, e3]
+  · simp [filePieceReadF, parseNumberF, readDecimal, startsWith, stripPrefix?, isWhitespaceDC, hi, e3]
+  · simp [filePieceReadF, parseNumberF, readDecimal, startsWith, stripPrefix?, isWhitespaceDC, hd, hi, e4]
+
+/-- what the reader rejects: lower-case "nan", a signed "NaN", junk (ParseNumberException) -/
+example : filePieceReadF conv.infSym conv.nanSym ['n', 'a', 'n'] = .err := by decide
+example : filePieceReadF conv.infSym conv.nanSym ['-', 'N', 'a', 'N'] = .err := by decide
+example : filePieceReadF conv.infSym conv.nanSym ['N', 'a', 'N', 'x'] = .nan 3 := by decide
+example : filePieceReadF conv.infSym conv.nanSym [' ', 'N', 'a', 'N', '\t', '1'] = .nan 4 := by decide
+
 end KV.C19
